@@ -149,12 +149,23 @@ def explore(parts, workers=None, records=None):
         for p in parts}
     par_tasks = [t for t in tasks if not parts[t[0]].serial]
     ser_tasks = [t for t in tasks if parts[t[0]].serial]
+    results = None
     if workers > 1 and len(par_tasks) > 1:
-        ctx = multiprocessing.get_context('fork')
-        with ctx.Pool(workers) as pool:
-            results = pool.imap(_work, par_tasks, chunksize=1)
-            results = list(results)
-    else:
+        # (results do not depend on the number of workers; when the machine cannot
+        # give us a pool -- fork / pipe failures under load -- fewer workers and
+        # finally this process do the same work)
+        for w in (workers, max(2, workers // 4)):
+            try:
+                ctx = multiprocessing.get_context('fork')
+                with ctx.Pool(w) as pool:
+                    results = list(pool.imap(_work, par_tasks, chunksize=1))
+                break
+            except (OSError, EOFError, BrokenPipeError, MemoryError) as e:
+                import sys
+                sys.stderr.write('vcheck: worker pool failed (%s: %s); retrying\n'
+                                 % (type(e).__name__, e))
+                results = None
+    if results is None:
         results = [_work(t) for t in par_tasks]
     results += [_work(t) for t in ser_tasks]
     for pi, out in results:
